@@ -93,6 +93,23 @@ Fixpoint uniq_names (t : stree) : Prop :=
   | _ => True
   end.
 
+(** ** Entries of a directory *)
+
+Definition entry_data (e : stree) : option bytes := match e with SFile _ d => Some d | _ => None end.
+Definition is_sdir (e : stree) : bool := match e with SDir _ _ _ => true | _ => false end.
+
+(** The recipes [enumerate_recipe_directory] collects, in listing order. *)
+Fixpoint dir_recipes (es : list stree) : list (str * option bytes) :=
+  match es with
+  | [] => []
+  | e :: r =>
+      if is_sdir e then dir_recipes r
+      else if is_readme_name (sname e) then dir_recipes r
+      else if is_md_name (sname e) then (sname e, entry_data e) :: dir_recipes r
+      else dir_recipes r
+  end.
+
+
 (** ** The page hierarchy without the shared mutable map (C15, C17)
 
     [pure_root] builds the same home page / category trees as
@@ -267,3 +284,101 @@ Definition final_heap_ok (t : stree) (root : path) (M : N) (h : heap) : Prop :=
   end.
 
 End PureBuild.
+
+(** ** Well-formed trees and stated serving counts (C15 error statement) *)
+
+Section Wf.
+Variable E : env.
+
+(** A recipe document without defects: it compiles, has a title, and does not state 0 servings. *)
+Definition doc_ok (data : option bytes) : Prop :=
+  exists doc title, compile_recipe E data true false = Ok doc /\ d_title doc = Some title /\
+                    d_servings doc <> Some 0.
+
+(** The serving count a recipe file states, if any. *)
+Definition native_of (data : option bytes) : option N :=
+  match compile_recipe E data true false with Ok doc => d_servings doc | Err _ => None end.
+
+(** Every directory enumerates (one readme at most, with a proper title) and every recipe is
+    [doc_ok]: a source tree whose only possible defect is a recipe larger than max_servings. *)
+Fixpoint tree_wf (t : stree) (dp : path) {struct t} : Prop :=
+  match t with
+  | SDir _ rname es =>
+      exists l, enumerate E dp rname es = Ok l /\
+        (forall nd, In nd (l_recipes l) -> doc_ok (snd nd)) /\
+        (fix subs (l0 : list stree) : Prop :=
+           match l0 with
+           | [] => True
+           | e :: r => match e with SDir n _ _ => tree_wf e (dp ++ [n]) /\ subs r | _ => subs r end
+           end) es
+  | _ => False
+  end.
+
+(** All serving counts stated anywhere in the tree. *)
+Fixpoint tree_natives (t : stree) (dp : path) {struct t} : list N :=
+  match t with
+  | SDir _ rname es =>
+      match enumerate E dp rname es with
+      | Ok l => flat_map (fun nd => match native_of (snd nd) with Some nv => [nv] | None => [] end) (l_recipes l)
+      | Err _ => []
+      end
+      ++ (fix subs (l0 : list stree) : list N :=
+            match l0 with
+            | [] => []
+            | e :: r => match e with SDir n _ _ => tree_natives e (dp ++ [n]) ++ subs r | _ => subs r end
+            end) es
+  | _ => []
+  end.
+
+End Wf.
+
+
+(** ** The page set (C15) *)
+
+Definition top_name (sv : option N) : str := match sv with Some n => serves_name n | None => s "categories" end.
+
+(** "/<top>/<d1>/<d2>..." for the directory [rel] (names below the source root). *)
+Definition dir_prefix (top : str) (rel : list str) : str := [c_slash] ++ top ++ flat_map (fun n => c_slash :: n) rel.
+Definition cat_page_path (top : str) (rel : list str) : str := dir_prefix top rel ++ s "/index.html".
+Definition rec_page_path (top : str) (rel : list str) (name : str) : str :=
+  dir_prefix top rel ++ [c_slash] ++ stem name ++ s ".html".
+
+(** Directories of the tree (relative paths, the root is []) and its recipe files. *)
+Fixpoint tree_dirs (t : stree) : list (list str) :=
+  match t with
+  | SDir _ _ es => [] :: flat_map (fun e => match e with SDir n _ _ => map (cons n) (tree_dirs e) | _ => [] end) es
+  | _ => []
+  end.
+
+Fixpoint tree_recipes (t : stree) : list (list str * str * option bytes) :=
+  match t with
+  | SDir _ _ es =>
+      map (fun nd => ([], fst nd, snd nd)) (dir_recipes es)
+      ++ flat_map (fun e => match e with
+                            | SDir n _ _ => map (fun x => (n :: fst (fst x), snd (fst x), snd x)) (tree_recipes e)
+                            | _ => []
+                            end) es
+  | _ => []
+  end.
+
+Definition scalable (E : env) (data : option bytes) : bool :=
+  match native_of E data with Some _ => true | None => false end.
+
+(** home page, style sheet, one category page per directory for each count and one unscaled,
+    one page per count for every recipe that states its servings, one page for any other. *)
+Definition site_page_paths (E : env) (M : N) (t : stree) : list str :=
+  home_path :: css_path ::
+  flat_map (fun sv => map (cat_page_path (top_name sv)) (tree_dirs t)) (map Some (N_seq 1 (N.to_nat M)) ++ [None])
+  ++ flat_map (fun n => map (fun x => rec_page_path (serves_name n) (fst (fst x)) (snd (fst x)))
+                            (filter (fun x => scalable E (snd x)) (tree_recipes t))) (N_seq 1 (N.to_nat M))
+  ++ map (fun x => rec_page_path (s "categories") (fst (fst x)) (snd (fst x)))
+         (filter (fun x => negb (scalable E (snd x))) (tree_recipes t)).
+
+(** No two recipes of a directory share [name.rpartition(".")[0]]. *)
+Fixpoint distinct_stems (t : stree) : Prop :=
+  match t with
+  | SDir _ _ es => NoDup (map (fun nd => stem (fst nd)) (dir_recipes es)) /\
+                   (fix all (l : list stree) : Prop :=
+                      match l with [] => True | e :: r => distinct_stems e /\ all r end) es
+  | _ => True
+  end.
